@@ -72,12 +72,17 @@ def strip_refs(s):
     return s
 
 
+def _canon_atom(t):
+    # borrows and dereferences do not change the value an atom stands for (`len(&*v)` is `len(v)`, `*n` is `n`)
+    return re.sub(r"[&*]+", "", t)
+
+
 def atom_of(s):
-    return M.show(s)
+    return _canon_atom(M.show(s, -24))
 
 
 def len_atom(base):
-    return "len(%s)" % M.show(strip_refs(base))
+    return "len(%s)" % _canon_atom(M.show(strip_refs(base), -24))
 
 
 class Ctx:
@@ -515,7 +520,7 @@ def edge_facts(B, cx, site_bb, _depth=0):
                             for i, a in enumerate(hc[2]):
                                 if i + 1 <= Bh.arg_count:
                                     pa = M.show(("arg", Bh.local_name(i + 1) or "_%d" % (i + 1), i + 1))
-                                    mapping[pa] = M.show(strip_refs(a))
+                                    mapping[pa] = _canon_atom(M.show(strip_refs(a), -24))
                             for l, rel in ok_facts(cx.F, hc[1], _depth):
                                 l2 = _subst_atoms(l, mapping)
                                 for a in l2.c:
@@ -825,6 +830,18 @@ class Audit:
                 self.used_justifications.add(k2)
                 s.verdict, s.reason = "justified", "[same site as %s] %s" % (k2.rsplit(" | ", 1)[1], j2["reason"])
                 return True
+        if "::{closure" in fn:
+            # the site moved into a closure of the function its entry is about (`with_one_arg(args, |arg| ..)`): the same
+            # panicking callee, one such site before and one now, and the guards the entry relies on still in the function
+            parent = fn.split("::{closure")[0]
+            cands = [(k2, j2) for k2, j2 in self.justified.items() if k2.split(" | ")[0] == parent and len(k2.split(" | ")) == 3
+                     and _norm_what(k2.split(" | ")[1]) == wn]
+            if len(cands) == 1:
+                now = [x for q in self.F.fns if q == parent or q.startswith(parent + "::{closure") for x in self.sites_of(q) if _norm_what(x.what) == wn]
+                if len(now) == 1 and not self._requires(parent, cands[0][1].get("requires", [])):
+                    self.used_justifications.add(cands[0][0])
+                    s.verdict, s.reason = "justified", "[same site as %s, now in a closure of the function] %s" % (cands[0][0].rsplit(" | ", 1)[1], cands[0][1]["reason"])
+                    return True
         for gi, g in enumerate(self.groups):
             if (fn == g.get("fn") or ("fn_rx" in g and re.search(g["fn_rx"], fn))) and \
                     (re.search(g["what"], _short_what(s.what)) or re.search(g["what"], wn)) and re.search(g["operands"], _norm_desc(desc)):
